@@ -1479,6 +1479,17 @@ Op:
 				if !l.scanParamExp() {
 					return false
 				}
+			case '`':
+				// command substitution
+				if l.cmdSubst == '`' {
+					l.b.WriteRune(r)
+					break
+				}
+				l.lit()
+				l.mark(-1)
+				if !l.scanCmdSubst('`') {
+					return false
+				}
 			case '}':
 				// right brace
 				l.unread()
